@@ -129,6 +129,7 @@ NAME_SPEC_INDEX = {s[0]: i for i, s in enumerate(NAME_SPECS)}
 SPELL_Q = ["Mail", "mAiL.Sub", "@", "HOST.Example.ORG.", "Ns.OTHER.Net.", ".",
            "\\065\\090\\064\\091x", "\\192\\223q.T", "*.Wild"]
 SPELL_T = SPELL_Q + ["host.EXAMPLE.org.", "ZZ", "a.B.c.D", "\\000\\255.Y.", "Org.", "x.Example.ORG"]
+SPELL_X = SPELL_T + ["A", "Z", "\\064", "\\091", "Esc\\.Dot.Q", "X" * 63, "a.b.c.d.e.f.g.H", "ORG.", "example.ORG."]
 
 ORIGINS = ["Example.ORG.", "."]
 ORIGINS2 = ["Example.ORG.", "Other.Zone."]   # origin handed to to_digestable()
@@ -317,9 +318,10 @@ def check_plain(case):
 def canon_cases(spec, quick):
     label, rdclass, rdtype_t, rdtype, template, fields, flags = spec
     n = 1 + max(v for k, v in fields if k == "name")
-    spells = SPELL_Q if quick else SPELL_T
-    if n == 2 and not quick:
-        spells = SPELL_T[:12]
+    if n == 1:
+        spells = SPELL_T if quick else SPELL_X
+    else:
+        spells = SPELL_Q if quick else SPELL_T
     for combo in itertools.product(spells, repeat=n):
         if flags.get("generic"):
             for o1 in ORIGINS:
@@ -419,9 +421,10 @@ RRSETS = [
 ]
 RRSET_INDEX = {r[0]: i for i, r in enumerate(RRSETS)}
 
-OWNERS_Q = ["Www", "WWW.Example.ORG.", "*", "*.Example.ORG.", "a.b.C", "@", ".", "x.*.Example.ORG.", "*.Sub"]
+OWNERS_Q = ["Www", "WWW.Example.ORG.", "*", "*.Example.ORG.", "a.b.C", "@", ".", "x.*.Example.ORG.", "*.Sub",
+            "\\192\\223\\064\\091Q"]
 OWNERS_T = OWNERS_Q + ["Example.ORG.", "*.*", "a.B.c.d.E", "\\065\\090.Example.ORG.", "*.", "Org."]
-SIGNERS_Q = ["Example.ORG.", "@", ".", "Sign"]
+SIGNERS_Q = ["Example.ORG.", "@", ".", "Sign", "\\192\\223\\064\\091Q.Example.ORG."]
 SIGNERS_T = SIGNERS_Q + ["example.org.", "ORG.", "De.Ep"]
 RRSIG_ALG, RRSIG_EXP, RRSIG_INC, RRSIG_TAG = 13, T20200101, T20190101, 0xBEEF
 
@@ -605,6 +608,56 @@ def work_rrsig(task, col):
 
 
 # =========================================================================================
+# part 2b: canonical RR order through the rdata comparison operators
+# =========================================================================================
+def check_order(case):
+    """sorted() of the rdatas of an RRset (Rdata._cmp: "the DNSSEC ordering") for one input
+    permutation must be the RFC 4034 s6.3 order of their canonical forms."""
+    label, rdatas, flags = RRSETS[RRSET_INDEX[case["rrset"]]]
+    perm = case["perm"]
+    O = ref.name_from_text(ORIGIN)
+    Oname = dns.name.from_text(ORIGIN)
+    typename = rdatas[0][0]
+    rdtype = TYPE_INT[typename]
+    typ = dns.rdatatype.from_text(typename)
+    exp = sorted(ref.canonical_rdata(rdtype, ref.enc_fields(f, [ref.name_from_text(x, O) for x in sp]))
+                 for (_t, _tmpl, f, sp) in rdatas)
+    lrds = [dns.rdata.from_text("IN", typ, rdatas[i][1].format(*rdatas[i][3]), origin=Oname, relativize=False)
+            for i in perm]
+    try:
+        got = [rd.to_digestable() for rd in sorted(lrds)]
+        rds = dns.rdataset.from_rdata_list(300, lrds)
+        got_set = sorted(rd.to_digestable() for rd in rds)
+    except Exception as e:
+        return [("C15/canonical-order/" + crash_sig(e), "%s perm %r: %s" % (label, perm, e))], "crash", None
+    probs = []
+    if got != exp:
+        probs.append(("C15/canonical-order/sorted-rdatas-not-in-s6.3-order",
+                      "%s input order %r: sorted() gives %s, RFC 4034 s6.3 order is %s"
+                      % (label, perm, [g.hex() for g in got], [e.hex() for e in exp])))
+    if got_set != sorted(set(exp)):
+        probs.append(("C15/canonical-order/rdataset-duplicate-handling",
+                      "%s input order %r: Rdataset holds %d RRs, %d distinct canonical RRs expected"
+                      % (label, perm, len(got_set), len(set(exp)))))
+    return probs, "order:" + ("ok" if not probs else "BAD") + (":dups" if len(set(exp)) < len(exp) else ""), (label, tuple(perm))
+
+
+def work_order(task, col):
+    _, label, quick = task
+    n = len(RRSETS[RRSET_INDEX[label]][1])
+    for perm in itertools.permutations(range(n)):
+        case = {"part": "order", "rrset": label, "perm": list(perm)}
+        probs, outcome, key = check_order(case)
+        col.count("evaluations")
+        col.count("order_cases")
+        col.outcome("order/" + outcome)
+        if n > 1:
+            col.nontrivial(("order", key))
+        for s, w in probs:
+            col.violation(s, w, case)
+
+
+# =========================================================================================
 # part 3: key tag, DS, CDS
 # =========================================================================================
 def key_bytes(length, pattern):
@@ -619,7 +672,7 @@ def key_bytes(length, pattern):
     raise AssertionError(pattern)
 
 
-DS_OWNERS = ["Example.ORG.", "example.org.", ".", "A.b.C.Example.", "Sub", "\\065\\091.Example."]
+DS_OWNERS = ["Example.ORG.", "example.org.", ".", "A.b.C.Example.", "Sub", "\\065\\091.Example.", "\\192\\223\\064Z.Example."]
 DS_DIGESTS = [(1, "SHA1"), (2, "SHA256"), (4, "SHA384")]
 
 
@@ -762,7 +815,7 @@ def work_ds(task, col):
 # part 4: NSEC3 hash
 # =========================================================================================
 N3_NAMES = ["example", "Example.", "a.EXAMPLE.", ".", "*.w.example.", "\\065\\090\\091.example.",
-            "x.y.w.example", "2t7b4g4vsa5smi47k61mv5bv1a22bojr.example."]
+            "x.y.w.example", "2t7b4g4vsa5smi47k61mv5bv1a22bojr.example.", "\\192\\223\\064\\091Q.Example."]
 N3_SALTS = [("none", None), ("empty-bytes", b""), ("empty-str", ""), ("hex-str", "aabbccdd"),
             ("HEX-str", "AABBCCDD"), ("bytes1", b"\x00"), ("bytes4", b"\xaa\xbb\xcc\xdd"),
             ("bytes255", bytes(range(255)))]
@@ -894,7 +947,8 @@ ZM_OPTIONS = [
     ("delegation+glue", [zrr("sub", 86400, RR_NS("Ns.Sub")), zrr("ns.sub", 86400, RR_A("192.0.2.53"))]),
     ("nonapex-zonemd", [zrr("zm.sub", 60, RR_ZONEMD(7, 1, 1, "33" * 48))]),
     ("nonapex-rrsig-zonemd", [zrr("zm.sub", 60, RR_RRSIG("ZONEMD", 63))]),
-    ("upper-owner", [zrr("UPPER", 300, RR_TXT("Text")), zrr("a.UPPER", 300, RR_SVCB("Svc.Example.ORG."))]),
+    ("upper-owner", [zrr("UPPER", 300, RR_TXT("Text")), zrr("a.UPPER", 300, RR_SVCB("Svc.Example.ORG.")),
+                     zrr("\\192\\223\\064\\091Q", 300, RR_TXT("high octets are not letters"))]),
     ("wild", [zrr("*.w", 300, RR_TXT("wild")), zrr("Z", 1, RR_GEN("00")), zrr("Z", 1, RR_GEN(""))]),
     ("nsec", [zrr("@", 5, RR_NSEC("Mail.Example.ORG.")), zrr("@", 5, RR_RRSIG("NSEC", 47))]),
 ]
@@ -953,6 +1007,13 @@ def check_zonemd(case):
             pass
         except Exception as e:
             probs.append(("C15/zonemd/verify_digest/" + crash_sig(e), str(e)))
+        # RFC 8976 s4 step 4c (serial must match the SOA) is verification protocol, not digest
+        # computation: observed and reported as an outcome only
+        try:
+            z.verify_digest(ZM.ZONEMD(dns.rdataclass.IN, dns.rdatatype.ZONEMD, 2, 1, alg, exp))
+            outcome += "+serial-mismatch-accepted"
+        except dns.zone.DigestVerificationFailure:
+            outcome += "+serial-mismatch-rejected"
         # in-zone ZONEMD: replace placeholder(s) by [wrong, right]; the apex ZONEMD RRset is not
         # part of the digest, so the zone must verify from its own records
         try:
@@ -1011,6 +1072,7 @@ NS_OPTIONS = [
     ("sub/TXT(at cut)", [zrr("sub", 300, RR_TXT("occluded"))]),
     ("*.sub/A", [zrr("*.sub", 300, RR_A("10.0.0.6"))]),
     ("subz/A", [zrr("subz", 300, RR_A("10.0.0.7")), zrr("\\000.sub", 300, RR_A("10.0.0.8"))]),
+    ("a/RRSIG(A)+\\192/TXT", [zrr("a", 300, RR_RRSIG("A", 1)), zrr("\\192\\223", 300, RR_TXT("hi"))]),
 ]
 NS_NQUICK = 11
 
@@ -1171,7 +1233,7 @@ def work_nsec(task, col):
 # =========================================================================================
 # framework glue
 # =========================================================================================
-CHECKERS = {"canon": check_canon, "plain": check_plain, "rrsig": check_rrsig, "ds": check_ds,
+CHECKERS = {"canon": check_canon, "plain": check_plain, "rrsig": check_rrsig, "order": check_order, "ds": check_ds,
             "nsec3": check_nsec3, "zonemd": check_zonemd, "nsec": check_nsec}
 
 
@@ -1189,7 +1251,7 @@ def recheck(case):
 
 def worker(task, col):
     kind = task[0]
-    {"canon": work_canon, "rrsig": work_rrsig, "ds": work_ds, "nsec3": work_nsec3,
+    {"canon": work_canon, "rrsig": work_rrsig, "order": work_order, "ds": work_ds, "nsec3": work_nsec3,
      "zonemd": work_zonemd, "nsec": work_nsec}[kind](task, col)
 
 
@@ -1277,6 +1339,8 @@ def run(ctx):
     for label, _r, _f in RRSETS:
         for o in owners:
             tasks.append(("rrsig", label, o, q))
+    for label, _r, _f in RRSETS:
+        tasks.append(("order", label, q))
     # ds
     nshard = 16 if q else 64
     for s in range(nshard):
@@ -1292,12 +1356,18 @@ def run(ctx):
         tasks.append(("zonemd", c, q))
     # nsec
     ns_n = NS_NQUICK if q else len(NS_OPTIONS)
-    ns_all = list(range(1 << ns_n))
+    ns_all = list(range(1 << NS_NQUICK))
+    if not q:
+        # full product over the quick universe x every <=2-subset of the thorough-only options
+        nx = len(NS_OPTIONS) - NS_NQUICK
+        extras = [0] + [1 << i for i in range(nx)] + [(1 << i) | (1 << j) for i in range(nx) for j in range(i)]
+        ns_all = [b | (x << NS_NQUICK) for x in extras for b in ns_all]
     for c in chunks(ns_all, 64 if q else 512):
         tasks.append(("nsec", c, q))
     ctx.extra["bounds"] = {
         "canon": {"name_bearing_specimens": len(NAME_SPECS), "nameless_specimens": len(PLAIN_SPECS),
-                  "spellings": len(SPELL_Q if q else SPELL_T), "reader_origins": ORIGINS, "digest_origins": ORIGINS2},
+                  "spellings_one_name_types": len(SPELL_T if q else SPELL_X),
+                  "spellings_two_name_types": "%d^2" % len(SPELL_Q if q else SPELL_T), "reader_origins": ORIGINS, "digest_origins": ORIGINS2},
         "rrsig": {"rrsets": len(RRSETS), "owners": len(owners), "signers": len(SIGNERS_Q if q else SIGNERS_T),
                   "labels": "0..owner labels+1" + ("" if q else " and 255"), "original_ttl": [300, 86400],
                   "forms": 2, "origin_modes": 3},
@@ -1305,6 +1375,8 @@ def run(ctx):
                "digests": [1, 2, 4], "owners": len(DS_OWNERS), "entry_points": 7},
         "nsec3": {"names": len(N3_NAMES), "salts": len(N3_SALTS), "iterations": its},
         "zonemd": {"optional_rrset_groups": zm_n, "zones": 1 << zm_n, "x": "relativize(2) x zone classes(3) x hash(2)"},
-        "nsec": {"optional_rrset_groups": ns_n, "zones": len(ns_all), "x": "relativize(2) x zone classes(3)"},
+        "nsec": {"optional_rrset_groups": ns_n, "zones": len(ns_all),
+                 "enumeration": "full product of %d groups" % NS_NQUICK + ("" if q else
+                                " x every subset of size <= 2 of the %d remaining groups" % (len(NS_OPTIONS) - NS_NQUICK)), "x": "relativize(2) x zone classes(3)"},
     }
     ctx.pmap(worker, tasks)
